@@ -228,9 +228,9 @@ void add_s3(mc::Runner &R, const std::string &name, S3Dims D, bool quick, bool t
     const bool per_corner = d[10] == 1;
     const Topo t = s3_topo(D.topos[d[11]]);
     if (quant > 0 && dt != DT_FLOAT32) return false;  // quantization only applies to float attributes
-    // The recorded finding class "32-bit attribute spanning the type extremes" aborts the worker in most cases
+    // The recorded finding class "32-bit attribute with magnitudes >= 2^29" aborts the worker in most cases
     // (UBSan); it is explored in the smaller S3 space only, which both tiers run.
-    if (skip_32bit_extremes && (dt == DT_INT32 || dt == DT_UINT32) && vs == 1) return false;
+    if (skip_32bit_extremes && (dt == DT_INT32 || dt == DT_UINT32) && (vs == 1 || vs == 3)) return false;
     GeomDef g;
     g.is_mesh = true;
     const int k = gs::num_ids(t);
@@ -268,7 +268,7 @@ void add_s3(mc::Runner &R, const std::string &name, S3Dims D, bool quick, bool t
     std::string kl;
     const bool pos_int_or_q = pk == gs::POS_F32_Q || pk == gs::POS_I32;
     const bool is_oct = at == GeometryAttribute::NORMAL && dt == DT_FLOAT32 && nc == 3 && quant > 0;
-    if ((dt == DT_INT32 || dt == DT_UINT32) && vs == 1) kl = "32-bit-attribute-with-type-extremes";
+    if ((dt == DT_INT32 || dt == DT_UINT32) && (vs == 1 || vs == 3)) kl = "32-bit-attribute-with-magnitude>=2^29";
     else if (pred == MESH_PREDICTION_GEOMETRIC_NORMAL && !is_oct) kl = "forced-geometric-normal-on-non-octahedral-attribute";
     else if (pred == MESH_PREDICTION_TEX_COORDS_PORTABLE && nc != 2) kl = "forced-texcoords-portable-on-non-2-component-attribute";
     else if ((pred == MESH_PREDICTION_TEX_COORDS_PORTABLE || pred == MESH_PREDICTION_GEOMETRIC_NORMAL) && !pos_int_or_q)
@@ -549,7 +549,7 @@ int main(int argc, char **argv) {
   }
   {
     S3Dims q;  // quick
-    q.topos = {1, 3}; q.atypes = {0, 1, 2}; q.dts = {0, 1, 2, 3, 4, 5, 6}; q.ncs = {1, 2, 3, 4}; q.vss = {0, 1};
+    q.topos = {1, 3}; q.atypes = {0, 1, 2}; q.dts = {0, 1, 2, 3, 4, 5, 6}; q.ncs = {1, 2, 3, 4}; q.vss = {0, 1, 3};
     q.poskinds = {0, 1}; q.methods = {0, 2}; q.speeds = {0, 10}; q.preds = {0, 1, 2, 3, 4, 5, 6, 7}; q.quants = {0, 8};
     S3Dims t;  // thorough
     t.topos = {0, 1, 2, 3}; t.atypes = {0, 1, 2, 3}; t.dts = {0, 1, 2, 3, 4, 5, 6}; t.ncs = {1, 2, 3, 4, 5}; t.vss = {0, 1, 2, 3};
